@@ -70,20 +70,20 @@ theorem nxt_sep {q : Nat} (ht : Tok (At inp q)) : Nxt inp (fun _ => False) true 
 /-- `Description? ~ KEYWORD_x ~ T` fails where, after the optional description, another word `w'` stands -/
 theorem descKw_fails {τ : Trivia} (hτ : ∀ q, Ws (τ q)) {r : RuleId} {w : List Char}
     (hl : gList.look r = some (.atomic, .seq (.str w) (.not (.call R.NameContinue)))) (hw : validName w)
-    (desc : Option String) (w' : List Char) (hw' : validName w') (hne : w' ≠ w) {p : Nat} (T : Expr)
-    (h : HasAt inp p (rOptDesc τ p desc ++ tk τ true (p + (rOptDesc τ p desc).length) w'))
-    (ht : Tok (At inp (p + (rOptDesc τ p desc).length + (tk τ true (p + (rOptDesc τ p desc).length) w').length))) :
+    (desc : Option String) (w' : List Char) (hw' : validName w') (hne : w' ≠ w) {p : Nat} (T : Expr) {sK : Bool}
+    {bad : Char → Prop} (h : HasAt inp p (rOptDesc τ p desc ++ tk τ sK (p + (rOptDesc τ p desc).length) w'))
+    (hn : Nxt inp bad sK (p + (rOptDesc τ p desc).length + (tk τ sK (p + (rOptDesc τ p desc).length) w').length)) :
     Fails gList (B (rOptDesc τ p desc).length + 30) true (.seq (.opt (.call R.Description)) (.seq (.call r) T))
       .nonAtomic (At inp p) := by
   generalize hS : rOptDesc τ p desc = tS at *
   have g0 : HasAt inp p tS := h.left
-  have g1 : HasAt inp (p + tS.length) (tk τ true (p + tS.length) w') := h.right
-  have hd1 : Hd nameStart (tk τ true (p + tS.length) w') := hd_tk (hd_of_validName hw')
+  have g1 : HasAt inp (p + tS.length) (tk τ sK (p + tS.length) w') := h.right
+  have hd1 : Hd nameStart (tk τ sK (p + tS.length) w') := hd_tk (hd_of_validName hw')
   obtain ⟨oS, rS, _, _⟩ := optDescT hτ desc (hS ▸ g0)
     (by rw [hS]; exact tok_of_hd g1 hd1 (fun d => nameStart_not_trivia))
     (by rw [hS]; exact headNot_of_hd g1 hd1 (fun d hd => (nameStart_not_punct hd).2.2.2.2.2.2.2.2.2.2.2.2.2.2.1))
   rw [hS] at rS
-  obtain ⟨gW, _, gGlue⟩ := tk_gap hτ g1 (nxt_sep ht)
+  obtain ⟨gW, _, gGlue⟩ := tk_gap hτ g1 hn
   have fK : Fails gList 13 true (.call r) .nonAtomic (At inp (p + tS.length)) :=
     kw_fails_name (la := .none) hl hw hw' hne gW gGlue
   exact (fails_seq_K rS (fails_seq_1 fK)).mono (by barith)
